@@ -24,6 +24,8 @@ func init() {
 	ruleText["R01.3"] = "each generator assigned to the hidden loop-variable nodes allocates with reflect.New, copies the iteration variable with Set and stores the new Value into f.data[n.findex]; the conditions under which cfg installs them do not inspect the loop body"
 	ruleText["R01.4"] = "copyNode copies (or deliberately re-initialises) every field of node that the AST builder (*Interpreter).ast / addChild sets"
 	ruleText["R01.5"] = "same analysis as C02/R02.2: the run-time closures of every operator generator use exactly the Go operator of their action"
+	ruleText["R01.7"] = "every closure of the return generator that sets several results and can be installed when the function has named results and the return has several operands evaluates all operand generators before its first store into frame.data (no operand evaluation reachable from a result store in the closure's flow graph)"
+	ruleText["R01.8"] = "in every run-time closure of a generator func(n *node) that stores into dest(f) (dest obtained from a gen* value generator applied to n itself), no return of a non-nil successor is reachable from the closure entry without passing such a store"
 	ruleText["R01.6"] = "in the multiple-assignment closures of the assignment generator, no loop both evaluates a source generator and writes a destination, and the temporaries receive fresh copies (reflect.New(T).Elem() + Set), never the aliasing result of a source generator"
 }
 
@@ -53,6 +55,8 @@ func runC01(c *Config, r *Report) {
 		r.Errors = append(r.Errors, x.r.Errors...)
 	}
 	c01R6(ic, r)
+	c01R7(ic, r)
+	c01R8(ic, r, "R01.8", nil)
 }
 
 // kindLabels returns the names of the nkind constants of a case clause.
